@@ -9,6 +9,6 @@ mod opcodes;
 pub use assembler::{AssemblerError, assemble, assemble_from_string};
 pub use binary::{
     BinaryError, NativeBundle, deserialize, deserialize_with_manifest, serialize,
-    serialize_with_manifest,
+    serialize_with_manifest, try_serialize, try_serialize_with_manifest,
 };
 pub use disasm::{DisassemblerOptions, disassemble, disassemble_to_string};
